@@ -386,7 +386,8 @@ impl Sim {
     /// bring the history to quiescence: poll while ready, answer everything, let clients read
     pub fn settle(&mut self, rec: &mut Rec, rng: &mut Rng) {
         let mut idle_rounds = 0;
-        for _round in 0..400 {
+        // (one response is written per poll and connection: the cap must exceed the longest backlog a scenario builds — 1 200)
+        for _round in 0..4000 {
             let mut progressed = false;
             while !self.w.held.is_empty() {
                 self.respond(rec, rng, 0);
